@@ -18,7 +18,43 @@ import (
 
 // c05LedgerWorker: an amount that is not canonical (supplementary >= 10^18) is never accepted in to the ledger,
 // through any entry point.
+// c05SeamProbes: wallets that own amounts on both sides of the seam between the two parts of the currency (whole
+// units only, fractions only, fraction 10^18-1, one unit below a whole) each try to spend one smallest unit more than
+// they own, and every second one then exactly what it owns, on a single-chain ledger.
+func c05SeamProbes(w *core.WorkerCtx, report []string) {
+	rng := core.Rand(w.Seed, "C05seam", w.Batch)
+	desc := fmt.Sprintf("seam probes: wallets owning amounts around the currency seam overspend by one smallest unit seed=%d batch=%d", w.Seed, w.Batch)
+	world := ledger.NewWorld(rng, w.R, report, allSnapOracles, desc)
+	defer world.Close()
+	d, err := ledger.Setup(world, ledger.Profile{Nodes: 1, Users: 7, SupplyClass: 0, Delivery: "lockstep"})
+	if err != nil {
+		w.R.Inconc("setup failed: " + err.Error())
+		return
+	}
+	n := world.Nodes[0]
+	u := world.Users
+	e18 := ledger.E18
+	owns := []spice.Melange{{Currency: 10}, {Currency: 10, SupplementaryCurrency: 5 * e18 / 10}, {SupplementaryCurrency: 7}, {Currency: 3, SupplementaryCurrency: e18 - 1}, {Currency: 1, SupplementaryCurrency: 1}, {Currency: 2, SupplementaryCurrency: 3 * e18 / 10}}
+	for i := 1; i < len(u) && i-1 < len(owns); i++ {
+		t := world.NewTrx(u[0], u[i].Addr, owns[i-1], nil)
+		world.Propose(n, &t, "fund")
+	}
+	// some of it moves on, so that receipts and spends both have fractions
+	for i := 1; i < len(u)-1; i++ {
+		t := world.NewTrx(u[i], u[i+1].Addr, spice.Melange{SupplementaryCurrency: uint64(1 + rng.Intn(1000))}, nil)
+		world.Propose(n, &t, "move a fraction on")
+	}
+	for k := 0; k < 2; k++ {
+		m := world.NewTrx(u[0], u[1].Addr, spice.Melange{}, []byte("merge"))
+		world.Propose(n, &m, "merge")
+	}
+	world.OverspendProbes(n, d)
+	world.OverspendProbes(n, d)
+	w.R.Count("seam_probe_scenarios", 1)
+}
+
 func c05LedgerWorker(w *core.WorkerCtx) {
+	c05SeamProbes(w, []string{"C05"})
 	r := w.R
 	rng := core.Rand(w.Seed, "C05L", w.Batch)
 	e18 := ledger.E18
